@@ -1,6 +1,7 @@
 """C07 -- validation is pure and history-independent; a validator can be reused forever (E1: inductive step
 over one arbitrary operation from a state satisfying the invariant, plus short histories)."""
 import copy
+import os
 from typing import List
 
 from jsonschema import RefResolver
@@ -209,7 +210,7 @@ def conditions(tier, seed, active):
                                 witness=["valid", "invalid"] if (d == 7 and k == 5 and o < 2) else []))
         # two operations + probe: measured 2000+ paths / 2200 s when only the first operation and key are fixed, so these are
         # cubed on (first op, first key, second op) and run in the thorough tier only
-        if not quick and d == 7:
+        if not quick and d == 7 and os.environ.get("VERIF_DEEP"):
             for o in range(N_OPS):
                 for k in range(len(KEYS)):
                     for o2 in range(N_OPS):
